@@ -90,6 +90,33 @@ def tables(chk):
         p = i + 7
         _wrappers.row(chk, "tables:raw_estimate[p=%d] strictly increasing" % p, bool(np.all(np.diff(raw[i]) > 0)), None)
         _wrappers.row(chk, "tables:raw[0]-bias[0] == threshold[p=%d] (tables begin where the thresholds end)" % p, abs((raw[i][0] - bias[i][0]) - thr[i]) <= 1e-6 * thr[i], [float(raw[i][0] - bias[i][0]), float(thr[i])])
+        # HLL++ appendix: the tables give the raw estimate and its bias at 200 equally spaced true
+        # cardinalities, so raw - bias (the corrected estimate at the knots) is an arithmetic
+        # progression of integers up to rounding: strictly increasing, neighbouring steps within 1
+        knots = raw[i] - bias[i]
+        d = np.diff(knots)
+        ok_k = bool(np.all(d > 0)) and float(d.max() - d.min()) <= 1.0 + 1e-3
+        fnd = None
+        if not ok_k:
+            # failing input: as many distinct keys as the cardinality the damaged knot stands for
+            step = float(np.median(d))
+            bad_j = [j for j in range(200) if abs(knots[j] - (knots[0] + j * step)) > 2 + 1e-3 * step]
+            bad_j = bad_j or [int(np.argmax(np.abs(d - step)))]
+
+            def fnd(p=p, i=i, j=bad_j[0], step=step, k0=float(knots[0]) if abs(knots[0] - thr[i]) < 2 else float(thr[i])):
+                hl = chk.module("hyperloglog")
+                n = int(round(k0 + j * step))
+                rng = np.random.default_rng(12345)
+                for seed in (0, 1, 2):
+                    sk = hl.HyperLogLog(p, seed)
+                    sk.update([rng.bytes(12) for _ in range(n)])
+                    est = float(sk.query())
+                    env = 8 * 1.04 / math.sqrt(2**p)
+                    if abs(est - n) / n > env:
+                        return {"key": "HyperLogLog(p=%d, seed=%d) with %d distinct keys" % (p, seed, n), "observed": est, "expected": "within %.4f relative error of %d" % (env, n), "how": "table row p=%d knot %d is off the calibration grid; that many keys added to the real class" % (p, j)}
+                return None
+
+        _wrappers.row(chk, "tables:raw-bias at the knots is an equally spaced increasing sequence (p=%d)" % p, ok_k, [float(d.min()), float(d.max()), int(np.argmax(np.abs(d - np.median(d))))], fnd)
         _wrappers.row(chk, "tables:raw[-1]-bias[-1] == 5*2^p (p=%d)" % p, abs((raw[i][-1] - bias[i][-1]) - 5 * 2**p) <= 1e-6 * 5 * 2**p, [float(raw[i][-1] - bias[i][-1]), 5 * 2**p])
 
 
@@ -125,6 +152,78 @@ def glue_part(chk, found):
     chk.assumptions.update(glue.ASSUMED)
 
 
+def query_fresh_oracle(chk):
+    """real class: query(); M; query() against the kernel on the current registers"""
+    hl = chk.module("hyperloglog")
+    keys = [b"k%d" % i for i in range(40)]
+    for meth in ("add", "add_ngram", "update", "update_ngram", "merge"):
+        s = hl.HyperLogLog(7, 3)
+        s.update(keys[:5])
+        s.query()
+        if meth == "add":
+            for k in keys[5:]:
+                s.add(k)
+        elif meth == "add_ngram":
+            s.add_ngram(b"abcdefghijklmnopqrstuvwxyz0123456789", 3)
+        elif meth == "update":
+            s.update(keys[5:])
+        elif meth == "update_ngram":
+            s.update_ngram([b"abcdefghijklmnopqrstuvwxyz0123456789"], 3)
+        else:
+            o = hl.HyperLogLog(7, 3)
+            o.update(keys[5:])
+            s.merge(o)
+        got = float(s.query())
+        want = float(hl._query(s.registers, s.m, s.threshold, s.alpha, s.raw_estimate, s.bias_data))
+        if got != want:
+            return {"key": "HyperLogLog(7, 3): update(5 keys); query(); %s(more keys); query()" % meth, "observed": got, "expected": want, "how": "real class vs the _query kernel on its current registers"}
+    return None
+
+
+def query_fresh(chk, found):
+    if found is None:
+        cache = {}
+
+        def found():
+            if "r" not in cache:
+                cache["r"] = query_fresh_oracle(chk)
+            return cache["r"]
+
+    """query() answers for the *current* registers: after query(); M; for every mutator M, the next
+    query() calls the kernel on the sketch's own registers again (a remembered answer must not
+    survive an operation that can change the registers).  Histories of this shape only; together
+    with field stability (no method touches the parameters) this is what the statement needs."""
+    ex = glue.make_exec(chk)
+    a, objs, _ = _glue.good_objects(ex, "HyperLogLog", "qf")
+    sref, st0 = objs[0]
+    b, others, _ = _glue.good_objects(ex, "HyperLogLog", "qg", st=st0.fork())
+    oref, st1 = others[0]
+    k1 = _wrappers.key_sym("k1")
+    value, ngram = Sym(z3.Int("value"), "int"), Sym(z3.Int("ngram"), "int")
+    muts = [("add", [k1, value]), ("add_ngram", [k1, ngram]), ("update", [[k1]]), ("update_ngram", [[k1], ngram]), ("merge", [oref]), ("attach_existing_shm", [Sym(z3.Int("nm"), "str")])]
+    st1.pc += [value.t >= 0, value.t < 2**64, ngram.t >= 1, ngram.t < 2**63, X.BYTESLEN(k1.t) >= 0]
+    # make the two operands compatible so that merge is accepted
+    st1.pc += [a["p"].t == b["p"].t, a["seed"].t == b["seed"].t]
+    for o1, e1 in _glue.call_method(ex, st1.fork(), sref, "query", []):
+        if o1.kind != "return":
+            continue
+        for meth, args in muts:
+            for o2, e2 in _glue.call_method(ex, o1.state.fork(), sref, meth, args):
+                if o2.kind != "return":
+                    continue
+                outs = _glue.call_method(ex, o2.state.fork(), sref, "query", [])
+                ok, why = bool(outs), []
+                for o3, e3 in outs:
+                    ks = _wrappers.kernel_calls(e3)
+                    f3 = o3.state.objs[sref.oid]["fields"]
+                    good = o3.kind == "return" and len(ks) == 1 and ks[0][1] == "hyperloglog._query" and ks[0][2].get("registers") is f3.get("registers")
+                    if not good:
+                        ok = False
+                        why.append("%s, kernel calls %s" % (o3.kind, [k[1] for k in ks]))
+                _wrappers.row(chk, "HyperLogLog: query(); %s(); query() asks the kernel again on the current registers" % meth, ok, why, found)
+    chk.assumptions.update(glue.ASSUMED)
+
+
 def run(chk):
     cache = {}
 
@@ -134,6 +233,10 @@ def run(chk):
         return cache["r"]
 
     chk.default_found = found
+    try:
+        query_fresh(chk, found)
+    except X.Unsupported as e:
+        chk.undecided.append(("HyperLogLog.query freshness", "unsupported construct in glue: %s" % e))
 
     for q in KERNELS:
         chk.kernel(q, replayer=lambda c, bad, tir, contract: found())
